@@ -104,9 +104,9 @@ impl Builder {
         };
 
         let inner = match (format, compression_method) {
-            (Format::Bcf, None) => Inner::Bcf(bcf::io::Writer::new(writer)),
+            (Format::Bcf, None) => Inner::BcfRaw(bcf::io::Writer::from(BufWriter::new(writer))),
             (Format::Bcf, Some(CompressionMethod::Bgzf)) => {
-                Inner::BcfRaw(bcf::io::Writer::from(BufWriter::new(writer)))
+                Inner::Bcf(bcf::io::Writer::new(writer))
             }
             (Format::Vcf, None) => Inner::Vcf(vcf::io::Writer::new(BufWriter::new(writer))),
             (Format::Vcf, Some(CompressionMethod::Bgzf)) => {
